@@ -6,6 +6,7 @@ Description for the extractor unparser
 from __future__ import unicode_literals
 
 import operator
+import re
 from ast import literal_eval
 from collections import namedtuple
 from collections import defaultdict
@@ -726,6 +727,29 @@ class AttrSink(Attr):
         yield  # pragma: no cover
 
 
+PATT_ESCAPED_CHAR = re.compile(r'\\(.)', flags=re.S)
+PATT_SURROGATE_PAIR = re.compile('([\ud800-\udbff])([\udc00-\udfff])')
+
+
+def _join_surrogate_pair(match):
+    codepoint = 0x10000 + (
+        (ord(match.group(1)) - 0xd800) << 10) + ord(match.group(2)) - 0xdc00
+    return ('\\U%08x' % codepoint).encode('ascii').decode('unicode_escape')
+
+
+def literal_eval_string(value):
+    """
+    Evaluate a string literal; this is literal_eval plus the two things
+    that a string literal in JSON/ECMAScript may contain but mean
+    something else to Python: the escaped solidus and a surrogate pair
+    written as two unicode escape sequences.
+    """
+
+    result = literal_eval(PATT_ESCAPED_CHAR.sub(
+        lambda m: '/' if m.group(1) == '/' else m.group(0), value))
+    return PATT_SURROGATE_PAIR.sub(_join_surrogate_pair, result)
+
+
 class LiteralEval(Attr):
     """
     Assume the handler will produce a chunk of type string, and use
@@ -736,8 +760,11 @@ class LiteralEval(Attr):
     def __call__(self, walk, dispatcher, node):
         value = self._getattr(dispatcher, node)
         for chunk in walk(dispatcher, value, token=self):
+            evaluate = (
+                literal_eval_string if chunk.value[:1] in ('"', "'") else
+                literal_eval)
             yield next(dispatcher.token(
-                None, node, literal_eval(chunk.value), None))
+                None, node, evaluate(chunk.value), None))
 
 
 class Raw(Token):
